@@ -7,7 +7,10 @@ The algebraic laws quantify over values and are NOT decided in general. Claimed,
          raw pointer, as_ptr) reaches the hasher, and Value::hash of an object hashes the pointee, not the pointer.
   C19.E  eq arms are symmetric: the match on (self, other) can only answer true for same-kind pairs.
   C19.O  ordering never contradicts equality for objects: CaoLangObject::partial_cmp answers Some(Equal) only on the
-         eq == true edge.
+         eq == true edge (decided by enumerating the paths of its HIR with the answer of eq(self, other) as the one
+         tracked fact, whatever idiom the paths are written in).
+  C19.N  mixed Integer/Real pairs are ordered by a comparator that converts neither side lossily: no `i64 as f64`, and
+         `f64 as i64` only where a value-range analysis of its MIR proves the real non-NaN and inside [-2^63, 2^63).
   C19.Z  hash value 0 is mapped away (= C12.Z), so any value can be a table key.
 """
 from cao.facts import (AnchorMissing, callee_names, short, hir_walk, hir_callee, hir_strip, hir_local_id, pat_variants, pat_bindings)
@@ -34,6 +37,35 @@ def impl_fn(F, trait_suffix, self_ty, method):
         if f.hir and not f.is_closure and f.name == method and short(r.get("impl_trait", "")).endswith(trait_suffix) and short(r.get("impl_self", "")) == self_ty:
             return f
     raise AnchorMissing("impl %s for %s" % (trait_suffix, self_ty))
+
+
+def walk_with_helpers(F, root, stop=lambda name: False, depth=3):
+    """pre-order walk over the HIR below `root` that also enters the bodies of the private helpers it calls: free functions
+    and inherent methods of the crate (never trait impls - those are the operations the rules reason about - and never a
+    callee `stop` names, the API a rule treats as primitive). Yields (node, line of the call in `root` it was reached
+    through or the node's own line)."""
+    seen = set()
+
+    def rec(e, top, d):
+        for x in hir_walk(e):
+            ln = top if top is not None else x.get("ln")
+            yield x, ln
+            if d <= 0 or x.get("k") not in ("call", "mcall"):
+                continue
+            for n_ in hir_callee(x):
+                if stop(n_):
+                    break
+                g = F.fn(n_, required=False)
+                if g is None or not g.hir or g.is_closure or short(g.raw.get("impl_trait", "") or "") or g.short in seen:
+                    continue
+                seen.add(g.short)
+                for y in rec(g.hir["body"], ln, d - 1):
+                    yield y
+    return rec(root, None, depth)
+
+
+def table_api(name):
+    return any(t in name for t in ("CaoLangTable::", "CaoHashMap::", "HandleTable::"))
 
 
 def match_arms(f):
@@ -67,7 +99,7 @@ def rule_h(F):
                     continue
                 key = "C19/H/%s::%s/hash-not-finer-than-eq" % (tname, kind)
                 hashed = []
-                for y in hir_walk(a["body"]):
+                for y, _ln in walk_with_helpers(F, a["body"], table_api):
                     if y.get("k") == "mcall" and y["name"] == "hash" and any(n.endswith("Hash::hash") for n in hir_callee(y)):
                         r = hir_strip(y["recv"])
                         hashed.append((r.get("ty", ""), r, y["ln"]))
@@ -127,9 +159,11 @@ def rule_t(F):
     ae, ah = table_arm(fe), table_arm(fh)
     if ae is None or ah is None:
         raise AnchorMissing("Table arms of PartialEq / Hash for CaoLangObject")
-    zips = [y for y in hir_walk(ae["body"]) if y.get("k") == "mcall" and y["name"] in ("zip", "eq", "cmp", "partial_cmp")
+    eq_nodes = [y for y, _ln in walk_with_helpers(F, ae["body"], table_api)]
+    hash_nodes = [y for y, _ln in walk_with_helpers(F, ah["body"], table_api)]
+    zips = [y for y in eq_nodes if y.get("k") == "mcall" and y["name"] in ("zip", "eq", "cmp", "partial_cmp")
             and any(n.startswith("std::iter::Iterator::") for n in hir_callee(y))]
-    lookups = [y for y in hir_walk(ae["body"]) if y.get("k") == "mcall" and y["name"] in ("get", "get_mut", "contains", "contains_key")
+    lookups = [y for y in eq_nodes if y.get("k") == "mcall" and y["name"] in ("get", "get_mut", "contains", "contains_key")
                and any("CaoLangTable::" in n or "CaoHashMap::" in n for n in hir_callee(y))]
     if lookups:
         eq_kind = "order-insensitive (rows of one table are looked up in the other, line %s)" % lookups[0].get("ln")
@@ -142,7 +176,7 @@ def rule_t(F):
     # hash: rows fed to the single hasher `state` inside a loop over iter()
     seq = False
     commut = False
-    for y in hir_walk(ah["body"]):
+    for y in hash_nodes:
         if y.get("k") == "mcall" and y["name"] == "hash" and any(n.endswith("Hash::hash") for n in hir_callee(y)):
             seq = True
         if y.get("k") in ("bin", "assign_op") and y.get("op") in ("BitXor", "BitXorAssign") or \
@@ -154,15 +188,15 @@ def rule_t(F):
         return [undecided("C19.T", key, fh.loc(ah.get("ln")), "the table hash feeds nothing recognisable to the hasher")]
     # both walk the same view of the rows: a position-by-position eq over the insertion-ordered iterator and a sequential
     # hash over the hash part's bucket order disagree as soon as two equal tables have different capacities
-    def row_views(arm):
+    def row_views(nodes):
         out = set()
-        for y in hir_walk(arm["body"]):
+        for y in nodes:
             if y.get("k") == "mcall" and y["name"] in ("iter", "iter_mut", "keys", "values", "into_iter"):
                 for n_ in hir_callee(y):
                     if "CaoLangTable::" in n_ or "CaoHashMap::" in n_ or "HandleTable::" in n_:
                         out.add(n_.rsplit("<", 1)[0])
         return out
-    ve, vh = row_views(ae), row_views(ah)
+    ve, vh = row_views(eq_nodes), row_views(hash_nodes)
     if eq_ordered and ve and vh and not (vh <= ve):
         return [bad("C19.T", key, fh.loc(ah.get("ln")),
                     "table equality compares the rows in the order of %s, the table hash feeds them to the hasher in the order of %s: "
@@ -233,7 +267,8 @@ def rule_k(F):
             arm = a
     if arm is None:
         raise AnchorMissing("Table arm of Hash for CaoLangObject")
-    loops = [y for y in hir_walk(arm["body"]) if y.get("k") == "match" and y.get("source") == "ForLoopDesugar"]
+    nodes = [y for y, _ln in walk_with_helpers(F, arm["body"], table_api)]
+    loops = [y for y in nodes if y.get("k") == "match" and y.get("source") == "ForLoopDesugar"]
     walked = False
     for lp in loops:
         head = lp.get("e") or lp.get("scrut") or {}
@@ -242,7 +277,7 @@ def rule_k(F):
         hashes = [z for z in hir_walk(lp) if z.get("k") == "mcall" and z["name"] == "hash" and any(n_.endswith("Hash::hash") for n_ in hir_callee(z))]
         if over_rows and len(hashes) >= 2:
             walked = True
-    memo = [z for z in hir_walk(arm["body"]) if z.get("k") == "mcall" and any("CaoLangTable::" in n_ for n_ in hir_callee(z))
+    memo = [z for z in nodes if z.get("k") == "mcall" and any("CaoLangTable::" in n_ for n_ in hir_callee(z))
             and z["name"] not in ("iter", "keys", "values", "len", "is_empty")]
     if walked and not memo:
         res.append(ok("C19.K", key, fh.loc(arm.get("ln")), "the rows are walked and every key and value is hashed at call time"))
@@ -255,33 +290,399 @@ def rule_k(F):
     return res
 
 
+class _RGiveUp(Exception):
+    pass
+
+
+INT_RANGES = {"i8": (-2.0 ** 7, 2.0 ** 7), "i16": (-2.0 ** 15, 2.0 ** 15), "i32": (-2.0 ** 31, 2.0 ** 31), "i64": (-2.0 ** 63, 2.0 ** 63),
+              "i128": (-2.0 ** 127, 2.0 ** 127), "isize": (-2.0 ** 63, 2.0 ** 63),
+              "u8": (-1.0, 2.0 ** 8), "u16": (-1.0, 2.0 ** 16), "u32": (-1.0, 2.0 ** 32), "u64": (-1.0, 2.0 ** 64), "usize": (-1.0, 2.0 ** 64),
+              "u128": (-1.0, 2.0 ** 128)}
+F64_ROUNDERS = {"trunc", "floor", "ceil", "round", "round_ties_even"}
+
+
+def _fmt_f(x):
+    import math
+    if math.isinf(x):
+        return "-inf" if x < 0 else "+inf"
+    for e in (63, 64, 53, 31, 32):
+        for sg in (1, -1):
+            if x == sg * 2.0 ** e:
+                return "%s2^%d" % ("-" if sg < 0 else "", e)
+            if x == math.nextafter(sg * 2.0 ** e, 0.0):
+                return "%s2^%d (exclusive)" % ("-" if sg < 0 else "", e)
+    return repr(x)
+
+
+class _FloatRange:
+    """Path-sensitive value-range analysis of the float operands of a small comparison helper, on its MIR.
+
+    Every local holds a symbolic term over the arguments: ("arg", n), ("c", float), ("op", trunc|floor|..|neg|abs, t),
+    ("cmp", Lt|Le|Gt|Ge|Eq|Ne, a, b), ("isnan", t), ("not", t), ("unk", n). References are transparent. A path carries
+    closed float intervals + a may-be-NaN bit for the terms it has tested (`r >= C`, `!(r < C)`, `r.is_nan()`, `r != r`,
+    `r.abs() < C` ...), refined at every `switch`. Local callees are inlined. At every float -> int cast the range of the
+    operand on that path is compared with the range in which the cast is exact (it saturates outside, NaN becomes 0).
+    Terms the analysis does not understand are 'approximate': a failure that rests on one is reported as undecided."""
+
+    def __init__(self, F):
+        import math
+        self.F = F
+        self.math = math
+        self.sites = {}     # (fn short path, block, stmt) -> list of (verdict ok|bad|approx, line, text)
+        self.unk = 0
+        self.paths = 0
+
+    # ---- intervals: (lo, hi, may_nan, exact)
+    TOP = (float("-inf"), float("inf"), True, True)
+
+    def fresh(self):
+        self.unk += 1
+        return ("unk", self.unk)
+
+    def interval(self, t, cons):
+        base = self._interval(t, cons)
+        c = cons.get(t)
+        if c is None:
+            return base
+        # a bound established by a test is real, but a term the analysis does not model stays approximate whatever was tested
+        return (max(base[0], c[0]), min(base[1], c[1]), base[2] and c[2], base[3])
+
+    def _interval(self, t, cons):
+        m = self.math
+        k = t[0]
+        if k == "c":
+            if t[1] != t[1]:
+                return (float("inf"), float("-inf"), True, True)
+            return (t[1], t[1], False, True)
+        if k == "arg":
+            return self.TOP
+        if k == "op":
+            lo, hi, nan, ex = self.interval(t[2], cons)
+            f = t[1]
+            if lo > hi:
+                return (lo, hi, nan, ex)
+            if f in F64_ROUNDERS:
+                g = {"trunc": m.trunc, "floor": m.floor, "ceil": m.ceil}.get(f)
+
+                def app(x):
+                    if m.isinf(x):
+                        return x
+                    if g is not None:
+                        return float(g(x))
+                    return float(m.floor(x)) if x < 0 else float(m.ceil(x))  # round*: at most one unit outwards
+                if f in ("round", "round_ties_even"):
+                    return (float(m.floor(lo)) if not m.isinf(lo) else lo, float(m.ceil(hi)) if not m.isinf(hi) else hi, nan, ex)
+                return (app(lo), app(hi), nan, ex)
+            if f == "neg":
+                return (-hi, -lo, nan, ex)
+            if f == "abs":
+                if lo >= 0:
+                    return (lo, hi, nan, ex)
+                if hi <= 0:
+                    return (-hi, -lo, nan, ex)
+                return (0.0, max(-lo, hi), nan, ex)
+        if k == "minmax":
+            a, b = self.interval(t[2], cons), self.interval(t[3], cons)
+            # f64::min / max ignore a NaN operand
+            if t[1] == "min":
+                return (min(a[0], b[0]), min(a[1], b[1]) if not (a[2] or b[2]) else max(a[1], b[1]), a[2] and b[2], a[3] and b[3])
+            return (max(a[0], b[0]) if not (a[2] or b[2]) else min(a[0], b[0]), max(a[1], b[1]), a[2] and b[2], a[3] and b[3])
+        return (float("-inf"), float("inf"), True, False)
+
+    def refine(self, t, lo, hi, nan, cons):
+        """intersect the range of term t with [lo, hi] / NaN-ness; None if the path is infeasible. Simple inverse images
+        are propagated to the operand (neg, abs upper bounds, rounding functions with integral bounds)."""
+        cur = self.interval(t, cons)
+        nlo, nhi, nnan = max(cur[0], lo), min(cur[1], hi), cur[2] and nan
+        if nlo > nhi and not nnan:
+            return None
+        cons = dict(cons)
+        cons[t] = (nlo, nhi, nnan, True)
+        if t[0] == "op":
+            f, x = t[1], t[2]
+            if f == "neg":
+                return self.refine(x, -hi, -lo, nan, cons)
+            if f == "abs":
+                return self.refine(x, -hi, hi, nan, cons)
+            if f in F64_ROUNDERS and not nan:
+                return self.refine(x, float("-inf"), float("inf"), False, cons)
+        return cons
+
+    def assume(self, t, truth, cons):
+        """-> (cons or None if infeasible, understood)"""
+        m = self.math
+        inf = float("inf")
+        k = t[0]
+        if k == "cb":
+            return (cons if bool(t[1]) == truth else None), True
+        if k == "not":
+            return self.assume(t[1], not truth, cons)
+        if k == "isnan":
+            if truth:
+                return self.refine(t[1], inf, -inf, True, cons), True
+            return self.refine(t[1], -inf, inf, False, cons), True
+        if k == "cmp":
+            op, a, b = t[1], t[2], t[3]
+            if a == b:
+                if op in ("Lt", "Gt"):      # x < x is never true
+                    return (None if truth else cons), True
+                number = truth == (op in ("Eq", "Le", "Ge"))    # x == x / x <= x  <=>  x is not NaN;  x != x  <=>  NaN
+                return (self.refine(a, -inf, inf, False, cons) if number else self.refine(a, inf, -inf, True, cons)), True
+            ia, ib = self.interval(a, cons), self.interval(b, cons)
+            if ib[0] == ib[1] and not ib[2] and ib[3]:
+                x, c = a, ib[0]
+            elif ia[0] == ia[1] and not ia[2] and ia[3]:
+                x, c = b, ia[0]
+                op = {"Lt": "Gt", "Le": "Ge", "Gt": "Lt", "Ge": "Le"}.get(op, op)
+            else:
+                return cons, False
+            if not truth:
+                if op in ("Eq", "Ne"):
+                    op = {"Eq": "Ne", "Ne": "Eq"}[op]
+                    nan_ok = op == "Ne"
+                else:
+                    op = {"Lt": "Ge", "Le": "Gt", "Gt": "Le", "Ge": "Lt"}[op]
+                    nan_ok = True       # !(x < c) also holds for NaN
+            else:
+                nan_ok = op == "Ne"
+            if op == "Lt":
+                return self.refine(x, -inf, m.nextafter(c, -inf), nan_ok, cons), True
+            if op == "Le":
+                return self.refine(x, -inf, c, nan_ok, cons), True
+            if op == "Gt":
+                return self.refine(x, m.nextafter(c, inf), inf, nan_ok, cons), True
+            if op == "Ge":
+                return self.refine(x, c, inf, nan_ok, cons), True
+            if op == "Eq":
+                return self.refine(x, c, c, nan_ok, cons), True
+            return cons, True   # x != c: no interval information
+        return cons, False
+
+    # ---- execution
+    def operand(self, op, loc):
+        k = op.get("k")
+        if k == "const":
+            if "fval" in op:
+                return ("c", float(op["fval"]))
+            if op.get("ty") == "bool" and "val" in op:
+                return ("cb", bool(op["val"]))
+            if isinstance(op.get("val"), int):
+                return ("ci", op["val"])
+            return self.fresh()
+        pl = op.get("place")
+        if pl is None:
+            return self.fresh()
+        if any(e["k"] != "deref" for e in pl["p"]):
+            return self.fresh()
+        return loc.get(pl["l"]) or self.fresh()
+
+    def is_float_ty(self, ty):
+        return ty in ("f64", "f32")
+
+    def rvalue(self, fn, bi, si, st, loc, cons, approx):
+        rv = st["rv"]
+        k = rv["k"]
+        if k == "use":
+            return self.operand(rv["op"], loc)
+        if k in ("ref", "rawptr"):
+            pl = rv["place"]
+            if any(e["k"] != "deref" for e in pl["p"]):
+                return self.fresh()
+            return loc.get(pl["l"]) or self.fresh()
+        if k == "cast":
+            x = self.operand(rv["op"], loc)
+            self.consume(x, cons, approx)
+            if rv.get("kind") == "FloatToInt":
+                # judged where the converted value is consumed: on a path that leaves without looking at it the cast is harmless
+                self.sites.setdefault((fn.short, bi, si), []).append(("seen", st.get("ln"), ""))
+                return ("castfi", x, rv.get("ty", ""), (fn.short, bi, si), st.get("ln"))
+            if rv.get("kind") == "FloatToFloat" and rv.get("ty") == "f64":
+                return x
+            return self.fresh()
+        if k == "bin":
+            a, b = self.operand(rv["l"], loc), self.operand(rv["r"], loc)
+            self.consume(a, cons, approx)
+            self.consume(b, cons, approx)
+            if rv["op"] in ("Lt", "Le", "Gt", "Ge", "Eq", "Ne"):
+                return ("cmp", rv["op"], a, b)
+            return self.fresh()
+        if k == "un":
+            x = self.operand(rv["x"], loc)
+            self.consume(x, cons, approx)
+            if rv["op"] == "Neg":
+                if x[0] == "c":
+                    return ("c", -x[1])
+                return ("op", "neg", x)
+            if rv["op"] == "Not":
+                return ("not", x)
+        for o in (rv.get("ops") or []):
+            self.consume(self.operand(o, loc), cons, approx)
+        return self.fresh()
+
+    def consume(self, t, cons, approx):
+        """the value of term t is looked at here (compared, computed with, passed on, returned)"""
+        if t[0] == "castfi":
+            self.check_cast(t[3], t[4], t[1], t[2], cons, approx)
+
+    def check_cast(self, key, ln, x, ty, cons, approx):
+        rng = INT_RANGES.get(ty)
+        lo, hi, nan, exact = self.interval(x, cons)
+        if rng is None:
+            self.sites.setdefault(key, []).append(("approx", ln, "cast to %s" % ty))
+            return
+        if lo > hi and not nan:
+            return
+        problems = []
+        if lo <= hi and hi >= rng[1]:
+            problems.append("values >= %s saturate to %s::MAX" % (_fmt_f(rng[1]), ty))
+        if lo <= hi and lo < rng[0] and not (ty.startswith("u") and lo > -1.0):
+            problems.append("values < %s saturate to %s::MIN" % (_fmt_f(rng[0]) if not ty.startswith("u") else "0", ty))
+        if nan:
+            problems.append("NaN becomes 0")
+        if not problems:
+            self.sites.setdefault(key, []).append(("ok", ln, "operand within [%s, %s]" % (_fmt_f(lo), _fmt_f(hi))))
+        else:
+            txt = "the operand of `as %s` can be anywhere in [%s, %s]%s: %s" % (ty, _fmt_f(lo), _fmt_f(hi), " or NaN" if nan else "", "; ".join(problems))
+            self.sites.setdefault(key, []).append(("bad" if exact and not approx else "approx", ln, txt))
+
+    def run_fn(self, fn, args, cons, approx, depth, stack=()):
+        """-> list of (return term, cons, approx)"""
+        if fn.mir is None:
+            raise _RGiveUp("no MIR for %s" % fn.short)
+        loc0 = {}
+        for n, a in enumerate(args):
+            loc0[n + 1] = a
+        outs = []
+        work = [(0, loc0, cons, approx, frozenset())]
+        while work:
+            bi, loc, cons, approx, seen = work.pop()
+            self.paths += 1
+            if self.paths > 5000:
+                raise _RGiveUp("too many paths")
+            if bi in seen:
+                raise _RGiveUp("loop in %s" % fn.short)
+            seen = seen | {bi}
+            b = fn.blocks[bi]
+            loc = dict(loc)
+            for si, st in enumerate(b["stmts"]):
+                if st["k"] != "assign":
+                    continue
+                v = self.rvalue(fn, bi, si, st, loc, cons, approx)
+                if not st["place"]["p"]:
+                    loc[st["place"]["l"]] = v
+                else:
+                    self.consume(v, cons, approx)       # stored into a part of something: not followed further
+                    loc[st["place"]["l"]] = self.fresh()
+            t = b["term"]
+            k = t["k"]
+            if k == "return":
+                if depth == 0 and loc.get(0):
+                    self.consume(loc[0], cons, approx)
+                outs.append((loc.get(0) or self.fresh(), cons, approx))
+            elif k == "goto":
+                work.append((t["target"], loc, cons, approx, seen))
+            elif k in ("drop", "assert"):
+                work.append((t["target"], loc, cons, approx, seen))
+            elif k == "switch":
+                d = self.operand(t["discr"], loc)
+                self.consume(d, cons, approx)
+                isbool = t.get("discr_ty") == "bool"
+                listed = []
+                for v, bb in t["targets"]:
+                    if isbool:
+                        c2, und = self.assume(d, bool(v), cons)
+                        if c2 is not None:
+                            work.append((bb, loc, c2, approx or not und, seen))
+                        listed.append(bool(v))
+                    else:
+                        work.append((bb, loc, cons, True, seen))
+                if isbool and len(set(listed)) == 1:
+                    c2, und = self.assume(d, not listed[0], cons)
+                    if c2 is not None:
+                        work.append((t["otherwise"], loc, c2, approx or not und, seen))
+                elif not (isbool and len(set(listed)) == 2):
+                    work.append((t["otherwise"], loc, cons, True, seen))
+            elif k == "call":
+                names = callee_names(t["func"])
+                argv = [self.operand(a, loc) for a in t["args"]]
+                if t.get("target") is None:
+                    continue
+                for v, c2, ap2 in self.call(names, argv, t, cons, approx, depth, stack + (fn.short,)):
+                    l2 = dict(loc)
+                    if not t["dest"]["p"]:
+                        l2[t["dest"]["l"]] = v
+                    work.append((t["target"], l2, c2, ap2, seen))
+            elif k in ("unreachable", "resume", "abort"):
+                continue
+            else:
+                raise _RGiveUp("terminator %s in %s" % (k, fn.short))
+        return outs
+
+    def call(self, names, argv, t, cons, approx, depth, stack):
+        inl = None
+        for n in names:
+            g = self.F.fn(n, required=False)
+            if g is not None and g.mir is not None and not g.is_closure:
+                inl = g
+        if inl is None:     # an inlined callee consumes (or not) on its own paths
+            for a in argv:
+                self.consume(a, cons, approx)
+        last = set(n.rsplit("::", 1)[-1] for n in names)
+        is_f = any(n.startswith(("core::f64::", "std::f64::", "core::f32::", "std::f32::")) for n in names)
+        if is_f and len(argv) == 1:
+            if "is_nan" in last:
+                return [(("isnan", argv[0]), cons, approx)]
+            for f in F64_ROUNDERS | {"abs"}:
+                if f in last:
+                    return [(("op", f, argv[0]), cons, approx)]
+        if is_f and len(argv) == 2 and last & {"min", "max"}:
+            return [(("minmax", "min" if "min" in last else "max", argv[0], argv[1]), cons, approx)]
+        if is_f and len(argv) == 3 and "clamp" in last:
+            return [(("minmax", "min", ("minmax", "max", argv[0], argv[1]), argv[2]), cons, approx)]
+        for n in names:
+            g = self.F.fn(n, required=False)
+            if g is not None and g.mir is not None and not g.is_closure:
+                if depth >= 3 or g.short in stack:
+                    raise _RGiveUp("call depth at %s" % g.short)
+                return self.run_fn(g, argv, cons, approx, depth + 1, stack)
+        return [(self.fresh(), cons, approx)]
+
+
 def rule_n(F):
     """C19.N: integers and reals are ordered by numeric value. An i64 converted to f64 is rounded beyond 2^53, so a mixed
-    comparison that converts the integer side is wrong there (2^53+1 compares Equal to 2^53.0). In `PartialOrd for Value`
+    comparison that converts the integer side is wrong there (2^53+1 compares Equal to 2^53.0); an f64 converted to i64
+    saturates outside [-2^63, 2^63) and turns NaN into 0, so a mixed comparison that converts the real side is wrong there
+    unless those reals were decided before the conversion (i64::MAX would compare Equal to 1e19). In `PartialOrd for Value`
     the mixed pairs (a Real on exactly one side) are decided before the common-type cast, by a comparator that takes the
-    integer as an integer and never converts it to a float."""
+    integer as an integer, never converts it to a float, and converts the real to an integer only on paths where the
+    value-range of the real (established by the tests that dominate the cast) makes the cast exact."""
     from cao.facts import DefUse
-    from cao import mirutil as mu
     res = []
     f = impl_fn(F, "cmp::PartialOrd", "value::Value", "partial_cmp")
     key = "C19/N/Value/mixed-integer-real-order-is-exact"
     exact = []
-    for y in hir_walk(f.hir["body"]):
-        if y.get("k") == "call":
+    top_line = {}
+
+    def is_comparator(n_):
+        g = F.fn(n_, required=False)
+        return g is not None and g.hir and g.mir and sorted(p_.get("ty") or "" for p_ in g.hir.get("params", [])) == ["f64", "i64"]
+    # the comparator may be called from partial_cmp itself, from a closure in it or from a private helper it delegates the
+    # mixed pairs to; `top_line` is the line in partial_cmp through which a site is reached
+    reached = list(walk_with_helpers(F, f.hir["body"], lambda n_: is_comparator(n_) or n_.endswith("try_cast_match")))
+    for y, ln in reached:
+        if y.get("k") in ("call", "mcall"):
             for n_ in hir_callee(y):
-                g = F.fn(n_, required=False)
-                if g is None or not g.hir or not g.mir:
-                    continue
-                ptys = [p_.get("ty") for p_ in g.hir.get("params", [])]
-                if sorted(ptys) == ["f64", "i64"]:
-                    exact.append((y, g))
+                if is_comparator(n_):
+                    exact.append((y, F.fn(n_)))
+                    top_line[id(y)] = ln
+                    break
     if not exact:
         return [bad("C19.N", key, f.loc(), "PartialOrd for Value decides mixed Integer/Real pairs only after converting both operands to a common "
                     "type: the integer side goes through `as f64`, which rounds beyond 2^53, so Integer(2^53+1) compares Equal to Real(2^53) - "
                     "the two kinds are not ordered by numeric value")]
     # both orders handled, before the cast
-    casts = [y for y in hir_walk(f.hir["body"]) if y.get("k") == "mcall" and any(n_.endswith("try_cast_match") for n_ in hir_callee(y))]
-    before = all((y.get("ln") or 0) < (c.get("ln") or 10 ** 9) for y, _g in exact for c in casts)
+    casts = [ln for y, ln in reached if y.get("k") in ("call", "mcall") and any(n_.endswith("try_cast_match") for n_ in hir_callee(y))]
+    before = all((top_line[id(y)] or 0) < (c or 10 ** 9) for y, _g in exact for c in casts)
     g = exact[0][1]
     lossy = False
     ipar = next((i + 1 for i, p_ in enumerate(g.hir["params"]) if p_.get("ty") == "i64"), None)
@@ -294,12 +695,77 @@ def rule_n(F):
                 if (kind == "arg" and payload == ipar) or l == ipar:
                     lossy = True
     if len(exact) >= 2 and before and not lossy:
-        res.append(ok("C19.N", key, f.loc(exact[0][0].get("ln")), "both mixed orders go to %s(i64, f64) before the common-type cast; it never converts the integer to a float" % g.name))
+        res.append(ok("C19.N", key, f.loc(top_line[id(exact[0][0])]), "both mixed orders go to %s(i64, f64) before the common-type cast; it never converts the integer to a float" % g.name))
     else:
-        res.append(bad("C19.N", key, f.loc(exact[0][0].get("ln")), "mixed Integer/Real pairs are not all decided by an exact comparison before the common-type "
+        res.append(bad("C19.N", key, f.loc(top_line[id(exact[0][0])]), "mixed Integer/Real pairs are not all decided by an exact comparison before the common-type "
                        "cast (sites: %d, before the cast: %s, integer converted to float inside: %s): beyond 2^53 the order of an integer and a "
                        "real is not the order of their numeric values" % (len(exact), before, lossy)))
+    # the real side: every float -> int cast the comparator performs (itself or in the local functions it calls) is exact
+    done = set()
+    for _y, g in exact:
+        if g.short in done:
+            continue
+        done.add(g.short)
+        res.append(real_side_exact(F, g))
     return res
+
+
+def _float_to_int_sites(fn):
+    out = []
+    for bi, b in enumerate(fn.blocks):
+        for si, st in enumerate(b["stmts"]):
+            if st["k"] == "assign" and st["rv"]["k"] == "cast" and st["rv"].get("kind") == "FloatToInt":
+                out.append((fn.short, bi, si, st.get("ln")))
+    return out
+
+
+def real_side_exact(F, g):
+    """one result for comparator g(i64, f64): all float -> int casts reachable from it are performed on in-range operands"""
+    key = "C19/N/%s/real-converted-to-integer-only-where-exact" % g.name
+    # every cast site that can run on behalf of g: g, its closures, the local functions reachable from it
+    fns = {g.short: g}
+    for n_ in F.callgraph.reach(g.short):
+        h = F.fn(n_, required=False)
+        if h is not None and h.mir is not None:
+            fns[h.short] = h
+    for h in F.fns:
+        if h.is_closure and h.mir is not None and (h.root in fns or h.parent in fns):
+            fns[h.short] = h
+    want = [s_ for h in fns.values() for s_ in _float_to_int_sites(h)]
+    an = _FloatRange(F)
+    try:
+        an.run_fn(g, [("arg", n + 1) for n in range(g.mir["arg_count"])], {}, False, 0)
+    except _RGiveUp as ex:
+        return undecided("C19.N", key, g.loc(), "value-range analysis of %s gave up: %s" % (g.name, ex))
+    verdicts = []
+    for (fs, bi, si, ln) in want:
+        v = an.sites.get((fs, bi, si))
+        if not v:
+            verdicts.append(("approx", ln, "the float -> int cast at %s line %s is not on a path the analysis followed" % (fs, ln)))
+        elif all(x[0] == "seen" for x in v):
+            verdicts.append(("ok", ln, "the converted value is never looked at"))
+        else:
+            verdicts.extend(x for x in v if x[0] != "seen")
+    badv = [v for v in verdicts if v[0] == "bad"]
+    apx = [v for v in verdicts if v[0] == "approx"]
+    if badv:
+        v = badv[0]
+        why = []
+        if "saturate" in v[2]:
+            why.append("a real outside the i64 range then lands ON the extreme integer instead of beyond it: Integer(i64::MAX) compares Equal to "
+                       "Real(2^63), Real(1e19), Real(1e30) (and is incomparable with +inf) instead of Less, likewise i64::MIN against reals "
+                       "below -2^63 - integers and reals are not ordered by numeric value, and i64::MAX is order-Equal to both of 1e19 < 1e30")
+        if "NaN becomes 0" in v[2]:
+            why.append("NaN is compared as if it were 0: Integer(1) is ordered Greater than Real(NaN)")
+        return bad("C19.N", key, g.loc(v[1]), "%s(i64, f64) converts the real to an integer where the conversion is not exact: %s. %s"
+                   % (g.name, v[2], "; ".join(why)))
+    if apx:
+        v = apx[0]
+        return undecided("C19.N", key, g.loc(v[1]), "exactness of a float -> int conversion in %s not established: %s" % (g.name, v[2]))
+    if not want:
+        return ok("C19.N", key, g.loc(), "%s performs no float -> int conversion" % g.name)
+    oks = [v for v in verdicts if v[0] == "ok"]
+    return ok("C19.N", key, g.loc(oks[0][1] if oks else None), "%d float -> int cast(s), each dominated by range tests that make it exact (%s)" % (len(want), oks[0][2] if oks else ""))
 
 
 def op_local_(op):
@@ -392,42 +858,560 @@ def rule_c(F):
     return res
 
 
+class _OUndecided(Exception):
+    pass
+
+
+ORD_ATOMS = ("Less", "Equal", "Greater")
+ORD_TY = "std::cmp::Ordering"
+OPT_ORD_TY = "std::option::Option<std::cmp::Ordering>"
+
+
+class _OSt:
+    """one path of the abstract evaluation of partial_cmp: the local environment, what the path knows about
+    `eq(self, other)` (True / False / None = not consulted yet) and whether an un-modelled value was enumerated on it"""
+    __slots__ = ("env", "k", "opq")
+
+    def __init__(self, env, k, opq):
+        self.env, self.k, self.opq = env, k, opq
+
+    def bind(self, i, v):
+        e = dict(self.env)
+        e[i] = v
+        return _OSt(e, self.k, self.opq)
+
+    def know(self, k):
+        return _OSt(self.env, k, self.opq)
+
+    def opaque(self):
+        return _OSt(self.env, self.k, True)
+
+
+class _OEval:
+    """Path-enumerating abstract evaluator for the HIR of an ordering function of two operands. Values: True/False,
+    the three Ordering atoms, ("None",) / ("Some", atom), ("P", n) = the n-th operand (references are transparent),
+    ("T", [..]) tuples, ("C", closure node), ("U",) anything else. The only fact tracked across a path is the answer of
+    `eq` on the two operands (either operand order; `==`, `!=`, `ne` included; an operand token always stands for the
+    whole operand, so PartialEq on two of them is the operand type's own eq), which is a pure function of them.
+    Any two-operand comparison other than that eq (cmp, partial_cmp, <, ...) may answer anything. Calls to local helper
+    functions and closures are inlined; what is not modelled is enumerated by type and marks the path `opq`."""
+
+    def __init__(self, F, f, eq_self_ty):
+        self.F = F
+        self.eq_ty = eq_self_ty
+        self.rets = []
+        self.depth = 0
+        self.steps = 0
+        self.f = f
+
+    # -- entry
+    def run(self):
+        env = {}
+        for n, p_ in enumerate(self.f.hir.get("params", [])):
+            if p_.get("k") != "bind":
+                raise _OUndecided("parameter pattern")
+            env[p_["id"]] = ("P", n)
+        outs = self.ev(self.f.hir["body"], _OSt(env, None, False))
+        return self.rets + outs
+
+    # -- helpers
+    def by_type(self, e, st):
+        ty = e.get("ty", "")
+        for x in hir_walk(e):
+            if x.get("k") in ("ret", "break", "loop", "assign", "assign_op") and x is not e:
+                raise _OUndecided("control flow / mutation inside an un-modelled expression (line %s)" % x.get("ln"))
+        return self.by_type_call(e, st)
+
+    @staticmethod
+    def concrete(v):
+        return isinstance(v, bool) or v in ORD_ATOMS or v == ("None",) or (isinstance(v, tuple) and len(v) == 2 and v[0] == "Some" and v[1] in ORD_ATOMS)
+
+    @staticmethod
+    def scalars(operands):
+        tys = [(hir_strip(o).get("ty") or "").lstrip("&").replace("mut ", "").strip() for o in operands]
+        return all(t_ in INT_RANGES or t_ in ("f64", "f32", "bool", "char") for t_ in tys)
+
+    def is_eq_callee(self, e):
+        return any(n.endswith("PartialEq::eq") or n.endswith("PartialEq::ne") or n.endswith("PartialEq>::eq") or n.endswith("PartialEq>::ne") for n in hir_callee(e))
+
+    def eq_outcomes(self, a, b, st, negate):
+        """a == b on two evaluated operands"""
+        if a[0] == "P" and b[0] == "P" and a[1] != b[1]:
+            ks = [st.k] if st.k is not None else [True, False]
+            return [((not k) if negate else k, st.know(k)) for k in ks]
+        return None
+
+    def ev_seq(self, exprs, st):
+        """evaluate expressions left to right: list of ([vals], st)"""
+        outs = [([], st)]
+        for x in exprs:
+            nxt = []
+            for vs, s in outs:
+                for v, s2 in self.ev(x, s):
+                    nxt.append((vs + [v], s2))
+            outs = nxt
+        return outs
+
+    def call_closure(self, c, args, st):
+        node = c[1]
+        ps = node.get("params", [])
+        if len(ps) != len(args):
+            raise _OUndecided("closure arity")
+        sts = [st]
+        for p_, a in zip(ps, args):
+            nxt = []
+            for s in sts:
+                for verdict, s2 in self.pm(p_, a, s):
+                    if verdict != "no":
+                        nxt.append(s2)
+            sts = nxt
+        out = []
+        for s in sts:
+            out.extend(self.ev(node["body"], s))
+        return out
+
+    def apply(self, fv, args, st, e):
+        """call a function value (closure, or path to Some / a unit-like fn) with evaluated args"""
+        if isinstance(fv, tuple) and fv[0] == "C":
+            return self.call_closure(fv, args, st)
+        if fv == ("F", "Some") and len(args) == 1:
+            return self.mk_some(args[0], st, e)
+        raise _OUndecided("call of an unknown function value (line %s)" % e.get("ln"))
+
+    def mk_some(self, a, st, e):
+        if a in ORD_ATOMS:
+            return [(("Some", a), st)]
+        if a == ("U",) and e.get("ty") == OPT_ORD_TY:
+            st = st.opaque()
+            return [(("Some", x), st) for x in ORD_ATOMS]
+        return [(("U",), st)]
+
+    def inline_fn(self, g, args, st, e):
+        if self.depth >= 3 or not g.hir or g.is_closure:
+            return None
+        ps = g.hir.get("params", [])
+        if len(ps) != len(args) or any(p_.get("k") != "bind" for p_ in ps):
+            return None
+        sub = _OEval(self.F, g, self.eq_ty)
+        sub.depth = self.depth + 1
+        env = dict((p_["id"], a) for p_, a in zip(ps, args))
+        outs = sub.ev(g.hir["body"], _OSt(env, st.k, st.opq))
+        outs = sub.rets + outs
+        # the callee's environment does not leak back
+        return [(v, _OSt(st.env, s.k, s.opq)) for v, s in outs]
+
+    # -- patterns: list of (verdict in yes/no/maybe, st with bindings)
+    def pm(self, p, v, st):
+        k = p.get("k")
+        if k == "wild":
+            return [("yes", st)]
+        if k == "bind":
+            st2 = st.bind(p["id"], v)
+            if "sub" in p and p["sub"]:
+                return self.pm(p["sub"], v, st2)
+            return [("yes", st2)]
+        if k in ("ref", "deref", "box"):
+            return self.pm(p["pat"], v, st)
+        if k == "or":
+            out = []
+            rest = [st]
+            for alt in p["pats"]:
+                nxt = []
+                for s in rest:
+                    for verdict, s2 in self.pm(alt, v, s):
+                        if verdict in ("yes", "maybe"):
+                            out.append((verdict, s2))
+                        if verdict in ("no", "maybe"):
+                            nxt.append(s)
+                rest = nxt
+            out.extend(("no", s) for s in rest)
+            return out
+        if k == "expr":
+            if "lit" in p:
+                lv = p["lit"].get("v")
+                if isinstance(v, bool) and isinstance(lv, bool):
+                    return [("yes" if v == lv else "no", st)]
+                return [("maybe", st.opaque())]
+            nm = short(p["path"]["res"].get("ctor_of") or p["path"]["res"].get("path", "")).rsplit("::", 1)[-1]
+            return self.pm_variant(nm, [], v, st)
+        if k in ("tuple_struct", "path", "struct"):
+            r = p["path"]["res"]
+            nm = short(r.get("ctor_of") or r.get("path", "")).rsplit("::", 1)[-1]
+            subs = p.get("pats", []) if k == "tuple_struct" else []
+            if k == "struct":
+                return [("maybe", st.opaque())] if v == ("U",) else [("maybe", st.opaque())]
+            return self.pm_variant(nm, subs, v, st)
+        if k == "tuple":
+            if isinstance(v, tuple) and v[0] == "T" and len(v[1]) == len(p["pats"]):
+                outs = [("yes", st)]
+                for sp, sv in zip(p["pats"], v[1]):
+                    nxt = []
+                    for verdict, s in outs:
+                        if verdict == "no":
+                            nxt.append((verdict, s))
+                            continue
+                        for v2, s2 in self.pm(sp, sv, s):
+                            nxt.append(("no" if v2 == "no" else ("maybe" if "maybe" in (verdict, v2) else "yes"), s2))
+                    outs = nxt
+                return outs
+            s = st.opaque()
+            for i, _n in pat_bindings(p):
+                s = s.bind(i, ("U",))
+            return [("maybe", s)]
+        raise _OUndecided("pattern kind %s (line %s)" % (k, p.get("ln")))
+
+    def pm_variant(self, nm, subs, v, st):
+        if v in ORD_ATOMS:
+            return [("yes" if v == nm else "no", st)]
+        if isinstance(v, tuple) and v[0] in ("None", "Some"):
+            if v[0] != nm:
+                return [("no", st)]
+            if nm == "Some" and subs:
+                return self.pm(subs[0], v[1], st)
+            return [("yes", st)]
+        s = st.opaque()
+        for sp in subs:
+            for i, _n in pat_bindings(sp):
+                s = s.bind(i, ("U",))
+        return [("maybe", s)]
+
+    def ev_match(self, scrut_outs, arms, st_unused):
+        out = []
+        for v, st in scrut_outs:
+            pending = [st]
+            for a in arms:
+                nxt = []
+                for s in pending:
+                    for verdict, s2 in self.pm(a["pat"], v, s):
+                        if verdict == "no":
+                            nxt.append(s)
+                            continue
+                        if verdict == "maybe":
+                            nxt.append(s.opaque())
+                        if a.get("guard"):
+                            for gv, s3 in self.ev(a["guard"], s2):
+                                if gv is True:
+                                    out.extend(self.ev(a["body"], s3))
+                                elif gv is False:
+                                    nxt.append(_OSt(s.env, s3.k, s3.opq))
+                                else:
+                                    raise _OUndecided("guard value")
+                        else:
+                            out.extend(self.ev(a["body"], s2))
+                pending = nxt
+            # a `match` is exhaustive: whatever is still pending cannot happen for the concrete value
+        return out
+
+    # -- expressions: list of (value, st)
+    def ev(self, e, st):
+        self.steps += 1
+        if self.steps > 20000:
+            raise _OUndecided("too many paths")
+        e = hir_strip(e)
+        if e is None:
+            return [(("U",), st)]
+        k = e.get("k")
+        if k == "lit":
+            v = e["lit"].get("v")
+            return [(v if isinstance(v, bool) else ("U",), st)]
+        if k == "path":
+            r = e["path"]["res"]
+            if r["k"] == "local":
+                if r["id"] in st.env:
+                    return [(st.env[r["id"]], st)]
+                return self.by_type(e, st)
+            nm = short(r.get("ctor_of") or r.get("path", ""))
+            last = nm.rsplit("::", 1)[-1]
+            if nm.endswith("cmp::Ordering::" + last) and last in ORD_ATOMS:
+                return [(last, st)]
+            if last == "None" and e.get("ty", "").startswith("std::option::Option<"):
+                return [(("None",), st)]
+            if last == "Some":
+                return [(("F", "Some"), st)]
+            return self.by_type(e, st)
+        if k in ("addr_of", "cast") or (k == "un" and e.get("op") == "Deref"):
+            if k == "cast":
+                return self.by_type(e, st)
+            return self.ev(e["e"], st)
+        if k == "un" and e.get("op") == "Not" and e.get("ty") == "bool":
+            return [((not v) if isinstance(v, bool) else v, s) for v, s in self.ev(e["e"], st)]
+        if k == "tup":
+            return [(("T", vs), s) for vs, s in self.ev_seq(e["elems"], st)]
+        if k == "closure":
+            return [(("C", e), st)]
+        if k == "block":
+            return self.ev_block(e["block"], st)
+        if k == "ret":
+            if e.get("e") is None:
+                raise _OUndecided("bare return")
+            self.rets.extend(self.ev(e["e"], st))
+            return []
+        if k == "if":
+            out = []
+            for v, s in self.ev_cond(e["cond"], st):
+                if v is True:
+                    out.extend(self.ev(e["then"], s))
+                elif v is False:
+                    out.extend(self.ev(e["else"], s) if e.get("else") else [(("U",), s)])
+                else:
+                    raise _OUndecided("condition value (line %s)" % e.get("ln"))
+            return out
+        if k == "match":
+            if (e.get("source") or "").startswith(("ForLoop", "WhileLet", "TryDesugar", "Await")):
+                if e.get("source", "").startswith("TryDesugar") and e.get("ty") in (ORD_TY,):
+                    # `opt?` on an Option<Ordering>: None returns None, Some(x) yields x
+                    inner = hir_strip(e["scrut"])
+                    arg = inner["args"][0] if inner.get("k") == "call" and inner.get("args") else None
+                    if arg is not None and hir_strip(arg).get("ty") == OPT_ORD_TY:
+                        out = []
+                        for v, s in self.ev(arg, st):
+                            if v == ("None",):
+                                self.rets.append((v, s))
+                            elif isinstance(v, tuple) and v[0] == "Some":
+                                out.append((v[1], s))
+                            else:
+                                raise _OUndecided("`?` operand")
+                        return out
+                raise _OUndecided("loop / `?` (line %s)" % e.get("ln"))
+            return self.ev_match(self.ev(e["scrut"], st), e["arms"], st)
+        if k == "bin":
+            op = e.get("op")
+            if op in ("And", "Or"):
+                out = []
+                for v, s in self.ev(e["l"], st):
+                    if not isinstance(v, bool):
+                        raise _OUndecided("operand of && / ||")
+                    if v is (op == "Or"):
+                        out.append((v, s))
+                    else:
+                        out.extend(self.ev(e["r"], s))
+                return out
+            if op in ("Eq", "Ne") and self.is_eq_callee(e):
+                out = []
+                for (a, b), s in self.ev_seq([e["l"], e["r"]], st):
+                    r = self.eq_outcomes(a, b, s, op == "Ne")
+                    if r is not None:
+                        out.extend(r)
+                    elif self.concrete(a) and self.concrete(b):
+                        out.append(((a == b) == (op == "Eq"), s))
+                    elif self.scalars([e["l"], e["r"]]):
+                        out.extend([(True, s), (False, s)])
+                    else:
+                        out.extend([(True, s.opaque()), (False, s.opaque())])
+                return out
+            out = []
+            for _vs, s in self.ev_seq([e["l"], e["r"]], st):
+                if e.get("ty") == "bool" and op in ("Eq", "Ne", "Lt", "Le", "Gt", "Ge") and self.scalars([e["l"], e["r"]]):
+                    out.extend([(True, s), (False, s)])     # a test on scalar summaries of the operands: either answer, whatever eq says
+                else:
+                    out.extend(self.by_type_call(e, s))
+            return out
+        if k == "call":
+            f_ = hir_strip(e["f"])
+            names = hir_callee(e)
+            if f_.get("k") == "path" and f_["path"]["res"].get("k") == "def":
+                last = short(f_["path"]["res"].get("ctor_of") or f_["path"]["res"].get("path", "")).rsplit("::", 1)[-1]
+                if last == "Some" and len(e["args"]) == 1 and str(f_["path"]["res"].get("def_kind", "")).startswith("Ctor"):
+                    out = []
+                    for v, s in self.ev(e["args"][0], st):
+                        out.extend(self.mk_some(v, s, e))
+                    return out
+            out = []
+            for vs, s in self.ev_seq(e["args"], st):
+                r = self.model_call(e, names, None, vs, s)
+                if r is None and f_.get("k") == "path" and f_["path"]["res"].get("k") == "local":
+                    fv = s.env.get(f_["path"]["res"]["id"])
+                    if fv is not None:
+                        r = self.apply(fv, vs, s, e)
+                out.extend(r if r is not None else self.by_type_call(e, s))
+            return out
+        if k == "mcall":
+            names = hir_callee(e)
+            out = []
+            for vs, s in self.ev_seq([e["recv"]] + e["args"], st):
+                r = self.model_call(e, names, e["name"], vs, s)
+                out.extend(r if r is not None else self.by_type_call(e, s))
+            return out
+        if k in ("assign",):
+            lid = hir_local_id(e["l"])
+            if lid is None:
+                raise _OUndecided("assignment to a non-local (line %s)" % e.get("ln"))
+            return [(("U",), s.bind(lid, v)) for v, s in self.ev(e["r"], st)]
+        if k in ("loop", "break", "continue", "assign_op", "let"):
+            raise _OUndecided("%s (line %s)" % (k, e.get("ln")))
+        # field, index, struct, array, ...: evaluate nothing, enumerate by type
+        return self.by_type(e, st)
+
+    def by_type_call(self, e, st):
+        ty = e.get("ty", "")
+        st2 = st.opaque()
+        if ty == "bool":
+            return [(True, st2), (False, st2)]
+        if ty == ORD_TY:
+            return [(a, st2) for a in ORD_ATOMS]
+        if ty == OPT_ORD_TY:
+            return [(("None",), st2)] + [(("Some", a), st2) for a in ORD_ATOMS]
+        return [(("U",), st)]
+
+    def ev_cond(self, c, st):
+        c = hir_strip(c)
+        if c.get("k") == "let":
+            out = []
+            for v, s in self.ev(c["init"], st):
+                for verdict, s2 in self.pm(c["pat"], v, s):
+                    if verdict in ("yes", "maybe"):
+                        out.append((True, s2))
+                    if verdict in ("no", "maybe"):
+                        out.append((False, s.opaque() if verdict == "maybe" else s))
+            return out
+        if c.get("k") == "bin" and c.get("op") == "And":
+            out = []
+            for v, s in self.ev_cond(c["l"], st):
+                if v is True:
+                    out.extend(self.ev_cond(c["r"], s))
+                else:
+                    out.append((v, s))
+            return out
+        return self.ev(c, st)
+
+    def ev_block(self, bl, st):
+        sts = [st]
+        for stmt in bl["stmts"]:
+            nxt = []
+            for s in sts:
+                if stmt["k"] == "item":
+                    nxt.append(s)
+                elif stmt["k"] == "let":
+                    if stmt.get("init") is None:
+                        nxt.append(s)
+                        continue
+                    for v, s2 in self.ev(stmt["init"], s):
+                        for verdict, s3 in self.pm(stmt["pat"], v, s2):
+                            if verdict in ("yes", "maybe"):
+                                nxt.append(s3)
+                            if verdict in ("no", "maybe") and stmt.get("els"):
+                                if self.ev_block(stmt["els"], s2.opaque() if verdict == "maybe" else s2):
+                                    raise _OUndecided("let-else that does not diverge")
+                elif stmt["k"] in ("expr", "semi"):
+                    nxt.extend(s2 for _v, s2 in self.ev(stmt["e"], s))
+                else:
+                    raise _OUndecided("statement %s" % stmt["k"])
+            sts = nxt
+        out = []
+        for s in sts:
+            if bl.get("expr") is not None:
+                out.extend(self.ev(bl["expr"], s))
+            else:
+                out.append((("U",), s))
+        return out
+
+    def model_call(self, e, names, mname, vs, st):
+        """std combinators on bool / Ordering / Option<Ordering>, comparisons, local helpers. None = not modelled"""
+        def is_(suffix):
+            return any(n == suffix or n.endswith("::" + suffix) for n in names)
+        a0 = vs[0] if vs else None
+        # eq / ne of the two operands
+        if (is_("PartialEq::eq") or is_("PartialEq::ne")) and len(vs) == 2:
+            r = self.eq_outcomes(vs[0], vs[1], st, is_("PartialEq::ne"))
+            if r is not None:
+                return r
+            if self.concrete(vs[0]) and self.concrete(vs[1]):
+                return [((vs[0] == vs[1]) != is_("PartialEq::ne"), st)]
+            return None
+        if (is_("Ord::cmp") or is_("PartialOrd::partial_cmp")) and len(vs) == 2:
+            # comparing two scalars derived from the operands (lengths, ...) can answer anything whatever eq says: a scalar
+            # summary does not determine the contents. A comparison of structured parts is not modelled (enumerated, opaque)
+            if not self.scalars(([e["recv"]] if e.get("k") == "mcall" else []) + e["args"]):
+                return None
+            if is_("Ord::cmp"):
+                return [(a, st) for a in ORD_ATOMS]
+            return [(("None",), st)] + [(("Some", a), st) for a in ORD_ATOMS]
+        if is_("bool::then_some") and len(vs) == 2 and isinstance(a0, bool):
+            return self.mk_some(vs[1], st, e) if a0 else [(("None",), st)]
+        if is_("bool::then") and len(vs) == 2 and isinstance(a0, bool):
+            if not a0:
+                return [(("None",), st)]
+            out = []
+            for v, s in self.apply(vs[1], [], st, e):
+                out.extend(self.mk_some(v, s, e))
+            return out
+        isopt = isinstance(a0, tuple) and a0 and a0[0] in ("None", "Some")
+        if isopt and any(n.startswith("std::option::Option::") for n in names):
+            m = mname or names[0].rsplit("::", 1)[-1]
+            if m == "or_else" and len(vs) == 2:
+                return [(a0, st)] if a0[0] == "Some" else self.apply(vs[1], [], st, e)
+            if m == "or" and len(vs) == 2:
+                return [(a0 if a0[0] == "Some" else vs[1], st)]
+            if m == "map" and len(vs) == 2:
+                if a0[0] == "None":
+                    return [(("None",), st)]
+                out = []
+                for v, s in self.apply(vs[1], [a0[1]], st, e):
+                    out.extend(self.mk_some(v, s, e))
+                return out
+            if m == "and_then" and len(vs) == 2:
+                return [(("None",), st)] if a0[0] == "None" else self.apply(vs[1], [a0[1]], st, e)
+            if m == "filter" and len(vs) == 2:
+                if a0[0] == "None":
+                    return [(a0, st)]
+                return [(a0 if v is True else ("None",), s) for v, s in self.apply(vs[1], [a0[1]], st, e)]
+            if m == "unwrap_or" and len(vs) == 2:
+                return [(a0[1] if a0[0] == "Some" else vs[1], st)]
+            if m == "unwrap_or_else" and len(vs) == 2:
+                return [(a0[1], st)] if a0[0] == "Some" else self.apply(vs[1], [], st, e)
+            if m in ("is_some", "is_none") and len(vs) == 1:
+                return [((a0[0] == "Some") == (m == "is_some"), st)]
+            return None
+        if a0 in ORD_ATOMS and any(n.startswith("std::cmp::Ordering::") for n in names):
+            m = mname or names[0].rsplit("::", 1)[-1]
+            if m == "reverse":
+                return [({"Less": "Greater", "Greater": "Less", "Equal": "Equal"}[a0], st)]
+            if m == "then" and len(vs) == 2:
+                return [(a0 if a0 != "Equal" else vs[1], st)]
+            if m == "then_with" and len(vs) == 2:
+                return [(a0, st)] if a0 != "Equal" else self.apply(vs[1], [], st, e)
+            tests = {"is_eq": ("Equal",), "is_ne": ("Less", "Greater"), "is_lt": ("Less",), "is_gt": ("Greater",), "is_le": ("Less", "Equal"), "is_ge": ("Greater", "Equal")}
+            if m in tests and len(vs) == 1:
+                return [(a0 in tests[m], st)]
+            return None
+        # local helper with a body that answers a truth value / an ordering: inline it
+        for n in (names if e.get("ty") in ("bool", ORD_TY, OPT_ORD_TY) else []):
+            g = self.F.fn(n, required=False)
+            if g is not None and g.hir and not g.is_closure and not short(g.raw.get("impl_trait", "") or ""):
+                r = self.inline_fn(g, vs, st, e)
+                if r is not None:
+                    return r
+        return None
+
+
 def rule_o(F):
+    """C19.O: `partial_cmp` of objects never contradicts `eq`. Decided by enumerating the paths of the function body with
+    one tracked fact, the answer of eq(self, other): every path that returns Some(Equal) has eq == true on it, and no path
+    on which eq == true returns Some(Less) / Some(Greater). How the paths are written (then_some / or_else, early return,
+    match, a helper) does not matter."""
     res = []
     f = impl_fn(F, "cmp::PartialOrd", "vm::runtime::cao_lang_object::CaoLangObject", "partial_cmp")
-    # Some(Equal) may only be produced by `<eq>.then_some(Equal)` / `if eq {Some(Equal)}`
-    bad_sites = []
-    good = False
-    for x in hir_walk(f.hir["body"]):
-        if x.get("k") == "mcall" and x["name"] == "then_some":
-            recv = hir_strip(x["recv"])
-            is_eq = recv.get("k") == "mcall" and recv["name"] == "eq" or (recv.get("k") == "bin" and recv["op"] == "Eq")
-            arg = hir_strip(x["args"][0])
-            is_equal = arg.get("k") == "path" and short(arg["path"]["res"].get("path", "")).endswith("Ordering::Equal")
-            if is_equal and is_eq:
-                good = True
-            elif is_equal:
-                bad_sites.append(x["ln"])
-        if x.get("k") == "call" and any(n.endswith("::Some") for n in (hir_callee(x) + [short(hir_strip(x["f"]).get("path", {}).get("res", {}).get("path", ""))])):
-            arg = hir_strip(x["args"][0])
-            if arg.get("k") == "path" and short(arg["path"]["res"].get("path", "")).endswith("Ordering::Equal"):
-                bad_sites.append(x["ln"])
-        # `match res { Equal => None, _ => Some(res) }` : the Equal arm must not produce Some
-        if x.get("k") == "match":
-            for a in x["arms"]:
-                names = [n for n, _s, _p in pat_variants(a["pat"])]
-                if any(n.endswith("Ordering::Equal") for n in names):
-                    b = hir_strip(a["body"])
-                    if not (b.get("k") == "path" and short(b["path"]["res"].get("path", "")).endswith("::None")):
-                        bad_sites.append(a.get("ln"))
-                    else:
-                        good = good or False
-    if bad_sites:
-        res.append(bad("C19.O", "C19/O/CaoLangObject/equal-only-when-eq", f.loc(bad_sites[0]), "partial_cmp can answer Some(Equal) for objects that eq considers different (equal length is not equality)"))
-    elif good:
-        res.append(ok("C19.O", "C19/O/CaoLangObject/equal-only-when-eq", f.loc(), "Some(Equal) is produced only by eq(..).then_some(Equal); equal-length unequal objects are incomparable"))
-    else:
-        res.append(undecided("C19.O", "C19/O/CaoLangObject/equal-only-when-eq", f.loc(), "shape of partial_cmp not recognised"))
+    key = "C19/O/CaoLangObject/equal-only-when-eq"
+    try:
+        outs = _OEval(F, f, "CaoLangObject").run()
+        wrong = [(v, s) for v, s in outs if not (isinstance(v, tuple) and v and v[0] in ("None", "Some"))]
+        if wrong or not outs:
+            raise _OUndecided("a return value of partial_cmp was not understood")
+        eq_unguarded = [(v, s) for v, s in outs if v == ("Some", "Equal") and s.k is not True]
+        contradict = [(v, s) for v, s in outs if v[0] == "Some" and v[1] != "Equal" and s.k is True]
+        refl = [(v, s) for v, s in outs if v == ("Some", "Equal") and s.k is True]
+        if any(not s.opq for _v, s in eq_unguarded):
+            res.append(bad("C19.O", key, f.loc(), "partial_cmp can answer Some(Equal) for objects that eq considers different (equal length is not equality)"))
+        elif any(not s.opq for _v, s in contradict):
+            res.append(bad("C19.O", key, f.loc(), "partial_cmp can answer Some(Less) / Some(Greater) for two objects that eq considers equal: equal values are less/greater"))
+        elif eq_unguarded or contradict:
+            res.append(undecided("C19.O", key, f.loc(), "partial_cmp depends on values the rule does not model; Some(Equal) only under eq not established"))
+        elif not refl:
+            res.append(undecided("C19.O", key, f.loc(), "no path of partial_cmp answers Some(Equal) under eq == true: shape of partial_cmp not recognised"))
+        else:
+            res.append(ok("C19.O", key, f.loc(), "Some(Equal) is produced only on the eq(self, other) == true edge (%d paths); equal-length unequal objects are incomparable" % len(outs)))
+    except _OUndecided as ex:
+        res.append(undecided("C19.O", key, f.loc(), "shape of partial_cmp not recognised: %s" % ex))
     # Value::partial_cmp delegates objects to CaoLangObject::partial_cmp
     g = impl_fn(F, "cmp::PartialOrd", "value::Value", "partial_cmp")
     deleg = False
@@ -452,7 +1436,7 @@ RULES = [
     Rule("C19.H", rule_h, 6, "hash never finer than eq (no pointer identity in the hasher)"),
     Rule("C19.T", rule_t, 1, "table equality and hash agree on row order"),
     Rule("C19.K", rule_k, 1, "a table's hash is computed from its current rows"),
-    Rule("C19.N", rule_n, 1, "mixed integer/real ordering is exact (no i64 -> f64 rounding)"),
+    Rule("C19.N", rule_n, 2, "mixed integer/real ordering is exact (no i64 -> f64 rounding, no saturating f64 -> i64 cast)"),
     Rule("C19.X", rule_x, 2, "equality of numbers is the payloads' exact =="),
     Rule("C19.C", rule_c, 2, "numbers are ordered by their payload's own PartialOrd (consistent with ==)"),
     Rule("C19.E", rule_e, 6, "eq answers true only for same-kind pairs"),
